@@ -8,6 +8,7 @@ CONSTANTS
   MaxInjects = 0
   MaxExpires = 1
   MaxLosses = 1
+  MaxLinkChanges = 0
   AsBuilt = FALSE
 VIEW DesignView
 INVARIANTS RecordedPathsOK InFlightPathsOK RelaySkipOK BoundedMessages
